@@ -31,7 +31,7 @@ DEFAULT_PROFILE = {
     "end_styles": ["ret1", "ret1", "ret1", "fall", "retcond"],
     "max_blocks_hint": 25,
     "intc": 0.2,
-    "max_seq_ifs": 6,
+    "max_seq_ifs": 5,
 }
 
 
